@@ -143,3 +143,18 @@ func VerifDecodeDigest(b []byte) (id, addr string, request bool, d digest, err e
 }
 
 var _ = bufio.NewReader
+
+// ---- failure detector (C12) ----
+
+type (
+	VerifArrivalWindow   = arrivalWindow
+	VerifFailureDetector = accrualFailureDetector
+)
+
+func VerifNewArrivalWindow(bootstrap time.Duration, sampleSize int) *arrivalWindow {
+	return newArrivalWindow(bootstrap, sampleSize)
+}
+
+func VerifNewFailureDetector(bootstrap time.Duration, sampleSize int) *accrualFailureDetector {
+	return newAccrualFailureDetector(bootstrap, sampleSize)
+}
